@@ -415,7 +415,7 @@ def check_mask(ctx, m: S.Model, q: Query, info):
 class C13(Check):
     pid = "C13"
     level = "exploration"
-    budgets = {"quick": (360, 16), "thorough": (4500, 16)}
+    budgets = {"quick": (360, 16), "thorough": (1800, 16)}
     rule = (
         "A program = a scene of 1-3 objects (point cloud, curve, surface with arbitrary index tuples as cells, "
         "Grid2D any rotation/dip/negative sizes, BlockModel, Octree with explicit refinement, Drillhole; free, in "
